@@ -845,7 +845,9 @@ def gen_case(rng, tier):
             if rng.random() < 0.4:
                 s["suffixes"] = ["s%d" % i for i in range(len(s["alphas"]))]
         s["steppers"] = st
-        if "from-first" in st or "ewma" in st:
+        if "ewma" in st:
+            s["profile"] = "pos"           # float recurrences: values exactly representable with small magnitude (the tie domain of binary64)
+        elif "from-first" in st:
             s["profile"] = "nums"
     elif kind == "merge-fields":
         mode = rng.choice(["f", "r", "c"])
@@ -1402,6 +1404,10 @@ def dsl_cases(ctx, n):
             half = rng.choice([-10, -1, 201, 300, 1000])       # outside 0..100: both forms clamp to the extreme elements
         if f == "percentiles_map":
             half -= half % 2                                    # map key is string(p): keep p integral
+        # numerically equal elements written differently (9 and 9.0): which of them an order statistic returns depends on the sorting
+        # algorithm (sort.Slice is not stable) and is not a value: keep one spelling per numeric value
+        spelling = {}
+        xs = [x for x in xs if spelling.setdefault(numq(x), x) == x]
         cases.append({"f": f, "xs": xs, "p": Fraction(half, 2), "il": il})
     return cases
 
@@ -1749,26 +1755,34 @@ def run(ctx):
         ctx.violation({"broken": "correspondence-evaluation", "detail": err[-2000:]}, found_input=False)
         return
     reported = 0
-    for i in bad[:40]:
+    reported_verbs = set()                     # one report per verb, at most six: a defect of one verb must not hide another verb's
+    for i in bad[:200]:
         s, recs, rows = meta[i]
+        if s["verb"] in reported_verbs:
+            continue
+        reported_verbs.add(s["verb"])
         if s["verb"] == "pctl-grid" and len(s["ps"]) > 1:      # shrink to the first percentile the oracle rejects
             badj = [j for j, (e, (_, t)) in enumerate(zip(oracle_expect_pctl(s), rows[0])) if not matches(e, t)]
             if badj:
                 s, rows = dict(s, ps=[s["ps"][badj[0]]]), [[rows[0][badj[0]]]]
-        d = oracle(s, recs, rows)
+        if s["verb"] == "dsl":
+            e_, t_ = expect_acc(s["acc"], s["xs"], s["interp"]), rows[0][0][1]
+            d = None if matches(e_, t_) else {"what": "dsl function value", "expected": [str(x) for x in e_], "observed": t_}
+        else:
+            d = oracle(s, recs, rows)
         rep = {"broken": "correspondence C10.Harness.chk", "args": mlr_args(s), "input": dkvp(recs, ";", ":").decode(), "observed": rows, "spec": s}
         if d is not None:
             reported += 1 if ctx.violation(dict(rep, difference=d, **{"class": classify_witness(s, recs, d, rows)})) else 0
         else:
             reported += 1 if ctx.violation(dict(rep, note="model and implementation differ; the first-principles oracle agrees with the implementation"), found_input=False) else 0
-        if reported >= 3:
+        if reported >= 6:
             break
     seen_classes = set()
     for s, recs, rows, d in sorted(oracle_bad, key=lambda x: len(x[1])):
         cl = classify_witness(s, recs, d, rows)
-        if cl in seen_classes:
+        if (cl, s["verb"]) in seen_classes or len(seen_classes) >= 8:
             continue
-        seen_classes.add(cl)
+        seen_classes.add((cl, s["verb"]))
         ctx.violation({"broken": "first-principles oracle", "args": mlr_args(s), "input": dkvp(recs, ";", ":").decode(), "observed": rows,
                        "difference": d, "class": cl, "spec": s})
 
